@@ -256,11 +256,11 @@ func run(ctx context.Context, cfg *Config) (_ *router, err error) {
 	// start servers
 	for i, serverCfg := range cfg.Servers {
 		closer, err := r.startServer(&serverCfg)
-		r.serverClosers = append(r.serverClosers, closer)
 		if err != nil {
 			err = fmt.Errorf("failed to start server #%d, %w", i, err)
 			return nil, err
 		}
+		r.serverClosers = append(r.serverClosers, closer)
 	}
 
 	runtime.GC()
